@@ -452,7 +452,59 @@ def run_shard(shard):
                 rec.violation("sampler.Mixture", f"mixture of {k} {fam} weights {w.tolist()}: KS {ks:.4f} > {DKW:.4f} against sum w_i F_i", tag, ("init", 0.0),
                               {"weights": w, "params": ps})
 
+    def check_high_dim(rng, tag):
+        """Dimension threshold: hundreds of independent coordinates with small / large scales (sum of log-scales ~ +-900)."""
+        for fam in ("Normal", "Laplace", "Gumbel"):
+            for sc in (0.05, 20.0):
+                n = 400
+                p = {"loc": rng.normal(size=n), "scale": np.full(n, sc) * np.exp(rng.uniform(-0.2, 0.2, n))}
+                d = build(fam, p)
+                x = p["loc"] + p["scale"] * rng.normal(size=(6, n))
+                lp = np.asarray(d.log_prob(jnp.asarray(x)), dtype=np.float64)
+                ref = ref_logpdf(fam, p, x).sum(1)
+                rec.evals += len(x)
+                rec.count("high_dimensional_density_points", len(x))
+                rec.nontrivial.add(chash("hd", fam, sc))
+                if not np.all(np.abs(lp - ref) <= 1e-9 * (1 + np.abs(ref)) * n):
+                    rec.violation(f"density.{fam}.high_dim", f"{fam} with {n} coordinates and scales ~{sc}: log_prob {lp[0]!r} vs textbook {ref[0]!r}", tag, ("init", 0.0), {})
+                s_, lps = d.sample_and_log_prob(jr.PRNGKey(1), (3,))
+                ref2 = ref_logpdf(fam, p, np.asarray(s_, dtype=np.float64)).sum(1)
+                if not np.all(np.abs(np.asarray(lps, dtype=np.float64) - ref2) <= 1e-9 * (1 + np.abs(ref2)) * n):
+                    rec.violation(f"density.{fam}.high_dim", f"{fam} with {n} coordinates: sample_and_log_prob log-prob {np.asarray(lps)[0]!r} vs textbook at the sample {ref2[0]!r}",
+                                  tag, ("init", 0.0), {})
+
+    def check_mixture_after_update(rng, tag):
+        """Mixture weights after the raw weight leaf has moved (as in any training run): still the weight-normalised sum."""
+        from scipy.special import logsumexp
+        from fjmon.common import perturb
+        from flowjax.wrappers import unwrap
+
+        k = int(rng.integers(2, 6))
+        locs, scales = rng.normal(size=k) * 3, np.exp(rng.uniform(-1, 1, k))
+        d0 = D.VmapMixture(eqx.filter_vmap(D.Normal)(jnp.asarray(locs), jnp.asarray(scales)), jnp.asarray(np.exp(rng.uniform(-2, 2, k))))
+        d = perturb(d0, 1.0, int(rng.integers(0, 10**6)))
+        u = unwrap(d)
+        lw = np.asarray(u.log_normalized_weights, dtype=np.float64)
+        cl, cs = np.asarray(u.dist.bijection.loc, dtype=np.float64), np.asarray(u.dist.bijection.scale, dtype=np.float64)
+        xs = rng.normal(size=40) * 6
+        comps = np.stack([ref_logpdf("Normal", {"loc": cl[i], "scale": cs[i]}, xs) for i in range(k)], 1)
+        ref = logsumexp(comps + lw - logsumexp(lw), axis=1)
+        lp = np.asarray(d.log_prob(jnp.asarray(xs)), dtype=np.float64)
+        rec.evals += len(xs)
+        rec.count("mixture_points_after_weight_update", len(xs))
+        rec.nontrivial.add(chash("mixupd", lw.tobytes().hex()[:16]))
+        if not np.all(np.abs(lp - ref) <= 1e-9 * (1 + np.abs(ref))):
+            i = int(np.argmax(np.abs(lp - ref)))
+            rec.violation("mixture.after_update", f"mixture of {k} Normal after its weight leaf moved: log_prob({xs[i]}) = {lp[i]!r}, weight-normalised sum of the component "
+                                                  f"densities {ref[i]!r} (weights sum to exp({float(logsumexp(lw))!r}))", tag, ("init", 0.0), {})
+
     only = shard.get("items")
+    if not only:
+        r0 = np.random.default_rng([shard["seed"], 5, shard["shard"], 999])
+        if shard["shard"] % 4 == 0:
+            check_high_dim(r0, {"family": "high_dim", "index": -1, "origin": "generated"})
+        for _ in range(2):
+            check_mixture_after_update(r0, {"family": "mixture_update", "index": -2, "origin": "generated"})
     idx = 0
     for fam in FAMILIES:
         for j in range(shard["per_family"]):
